@@ -69,7 +69,7 @@ func (c12) Gen(r *rand.Rand, tier string, run int) *core.Case {
 		c.Params = map[string]int{}
 		c.Sim.YieldCap = 0
 		for i := 0; i < 1+r.IntN(3); i++ {
-			c.Ops = append(c.Ops, core.Op{Kind: "botch", Actor: 300, X: int64(r.IntN(3)), Y: int64(r.IntN(30))})
+			c.Ops = append(c.Ops, core.Op{Kind: "botch", Actor: 300, X: int64(r.IntN(4)), Y: int64(r.IntN(30))})
 		}
 		return c
 	}
@@ -184,10 +184,15 @@ func c12pipe(c *core.Case, env *core.Env) {
 			// a byte that carries no descriptor, then gone
 			uc.Write([]byte{0})
 			env.Probe("connections-sending-a-byte-without-descriptor")
-		default:
+		case 2:
 			// reset instead of closed
 			uc.Abort()
 			env.Probe("connections-reset-before-the-descriptor")
+		default:
+			// connected, and silent from then on: it stays that way
+			env.Probe("connections-that-never-send-their-descriptor")
+			zzsim.SetNode("harness")
+			continue
 		}
 		uc.Close()
 		zzsim.SetNode("harness")
